@@ -32,6 +32,8 @@ fn main() {
         "svgdiscovered" => fqv::scen_render::svg_discovered(&mut sink, seed, &arg(&args, "--corpus", "")),
         #[cfg(feature = "diffsel")]
         "diffbuild" => fqv::scen_diff::diffbuild(&mut sink, seed, thorough),
+        #[cfg(all(feature = "diffsel", feature = "hooks"))]
+        "diffwasm" => fqv::scen_diff::diffwasm(&mut sink, seed, thorough),
         #[cfg(feature = "diffsel")]
         "diffrender" => fqv::scen_diff::diffrender(&mut sink, seed, thorough),
         "giant" => scen_build::giant(&mut sink, thorough),
